@@ -3,7 +3,9 @@ import VProps.C04
 #print axioms V.C04.accessors_only_see_json
 #print axioms V.C04.hash_match_intact
 #print axioms V.C04.hash_mismatch_redacted
-#print axioms V.C04.tamper_redactable_same_identity_partial
+#print axioms V.C04.redaction_no_event_id
+#print axioms V.C04.dropEventID_noop
+#print axioms V.C04.accepted_no_event_id
 #print axioms V.C04.identity_of_accepted
 #print axioms V.C04.tamper_redactable_same_identity
 #print axioms V.C04.same_redaction_same_identity_intact
